@@ -630,6 +630,76 @@ def renamed(c, mapping):
     return r(c)
 
 
+def share_dict_probe(ctx, guard, tf_cards, ids):
+    """Two DIFFERENT cards that $include the same share_dict table (the MultiConfig pattern).  Card 1 overrides J, P,
+    mass of the included resonances in its own particle section (canonical and alias spellings); card 2 takes the
+    table as it is.  With one and the same share_dict object, in both orders and with the include given as a key and
+    as a list: card 2's model must equal its load with a fresh deep copy of the table (and what the card denotes),
+    card 1's chains / J,P / (l,s) lists must be its own, and the caller's table must be unchanged after every load."""
+    groups = {}
+    for i, c in enumerate(tf_cards):
+        if c["kept"] and c["opt"]["kind"] == "none" and resonances_of(c):
+            groups.setdefault((c["shape"], c["scheme"]), []).append(i)
+    pairs = []
+    for key in sorted(groups):
+        g = sorted(groups[key], key=lambda i: ids[i])
+        a = g[0]
+        b = next((j for j in reversed(g) if tf_cards[j]["qnsel"] != tf_cards[a]["qnsel"]), None)
+        if b is not None:
+            pairs.append((a, b))
+    pairs = pairs[:: max(1, len(pairs) // 4)][:5]
+    n = 0
+    for i1, i2 in pairs:
+        c1, c2 = tf_cards[i1], tf_cards[i2]
+        pid = "%s|%s" % (ids[i1], ids[i2].split("/")[2])  # same shape and scheme, other J^P
+        res = resonances_of(c2)
+        table0 = {r: particle_props(c2, r) for r in res}
+        e1, e2 = expected(c1), expected(c2)
+        for mode, inc in (("key", "res.yml"), ("list", ["res.yml"])):
+            cfg2 = make_config(c2, include=inc, res_split={})
+            cfg1 = make_config(c1, include=inc, res_split={})
+            for k, r in enumerate(res):
+                p1 = particle_props(c1, r)
+                m = round(p1["mass"] + 0.2, 3)
+                cfg1["particle"][r] = {"J": p1["J"], "Par": p1["P"], "m0": m} if k % 2 == 0 else {"J": p1["J"], "P": p1["P"], "mass": m}
+            fresh2 = project(copy.deepcopy(cfg2), share={"res.yml": copy.deepcopy(table0)}, amp=True)
+            n += 1
+            compare_with_spec(ctx, c2, ids[i2], fresh2, e2, tag=":early_sd:%s:fresh" % mode)
+            for order in ("1,2", "2,1,2"):
+                if not guard.ok():
+                    return n
+                share = {"res.yml": copy.deepcopy(table0)}
+                keep = copy.deepcopy(share)
+                for step, which in enumerate(order.split(",")):
+                    c, cfg, e = (c1, cfg1, e1) if which == "1" else (c2, cfg2, e2)
+                    got = project(copy.deepcopy(cfg), share=share, amp=True)
+                    n += 1
+                    tag = "%s:early_sd:%s:%s:%d" % (pid, mode, order.replace(",", ""), step)
+                    if share != keep:
+                        ctx.violation(tag + ":table_modified", {"table_before": keep["res.yml"], "table_after": share["res.yml"]})
+                        share = copy.deepcopy(share)  # keep probing with what a user would now have
+                        keep = copy.deepcopy(share)
+                    if which == "2":
+                        dk = diff_keys(fresh2, got)
+                        if dk:
+                            ctx.violation(tag + ":card2:" + "+".join(dk), {"same_table_object_after_other_card": describe(got, dk), "fresh_copy_of_table": describe(fresh2, dk)})
+                    else:
+                        dk = []
+                        if got.get("error"):
+                            dk.append("error")
+                        else:
+                            if got["chains"] != e1["chains"]:
+                                dk.append("chains")
+                            if got["ls"] != e1["ls"]:
+                                dk.append("ls")
+                            if any(tuple(c1["qn"].get(nm.split(":")[0], ())) != q for nm, q in got["qn"].items()):
+                                dk.append("qn")
+                        if dk:
+                            ctx.violation(tag + ":card1:" + "+".join(dk), {"got": describe(got, dk), "expected_chains": fmt_chains(e1["chains"]), "expected_ls": e1["ls"]})
+    ctx.part("early_probes", share_dict_pairs=len(pairs), share_dict_loads=n)
+    return n
+
+
 def early_probes(ctx, guard, tf_cards, ids, rng):
     """Cheap and decisive 'repeated loads in one process' probes, before the bulk passes: state that leaks from one
     load into the next shows here within seconds.
@@ -697,6 +767,7 @@ def early_probes(ctx, guard, tf_cards, ids, rng):
         dk = diff_keys(a, b)
         if dk:
             ctx.violation("%s:early_twice:%s" % (cid, "+".join(dk)), {"first": describe(a, dk), "second": describe(b, dk)})
+    n_loads += share_dict_probe(ctx, guard, tf_cards, ids)
     guard.end()
     for amp in (False, True):
         if len(times[amp]) >= 5:
